@@ -169,6 +169,8 @@ func NegotiatePack(
 			return nil, ErrShallowNotSupported
 		}
 		upreq.Depth = packp.DepthRequest{Deepen: req.Depth}
+	}
+	if caps.Supports(capability.Shallow) {
 		upreq.Shallows, err = st.Shallow()
 		if err != nil {
 			return nil, err
